@@ -7,7 +7,26 @@ ALPHABET = [0x00, 0x01, 0x02, 0x03, 0x1F, 0x3F, 0x7F, 0x80, 0x81, 0x82, 0x9C, 0x
 PT = {"VISA": ac.PaddingType.VISA, "EMV": ac.PaddingType.EMV, "-": None}
 ET = {"VISA": sm.EncryptionType.VISA, "MASTERCARD": sm.EncryptionType.MASTERCARD, "EMV": sm.EncryptionType.EMV}
 # objects that are not members of the enum in question
-NON_MEMBERS = [1, 2, "EMV", "VISA", 2.0, b"\x02", sm.EncryptionType.EMV, ac.PaddingType.EMV, object()]
+import enum as _enum
+import pathlib as _pathlib
+import types as _types
+
+
+class _ForeignEnum(_enum.Enum):
+    VISA = 1
+    MASTERCARD = 2
+    EMV = 3
+
+
+class _ForeignIntEnum(_enum.IntEnum):
+    VISA = 1
+    EMV = 2
+
+
+NON_MEMBERS = [1, 2, "EMV", "VISA", 2.0, b"\x02", sm.EncryptionType.EMV, sm.EncryptionType.VISA, ac.PaddingType.EMV,
+               ac.PaddingType.VISA, object(), _ForeignEnum.EMV, _ForeignEnum.VISA, _ForeignEnum.MASTERCARD,
+               _ForeignIntEnum.EMV, _ForeignIntEnum.VISA, _types.SimpleNamespace(name="EMV", value=2),
+               _types.SimpleNamespace(name="VISA", value=1), _pathlib.PurePosixPath("keys/EMV"), True, [], {}]
 WEAK_KEYS = [bytes.fromhex(k) for k in (
     "0101010101010101", "FEFEFEFEFEFEFEFE", "E0E0E0E0F1F1F1F1", "1F1F1F1F0E0E0E0E",
     "011F011F010E010E", "1F011F010E010E01")]
@@ -24,19 +43,65 @@ class G:
         self.keys.append(h + h)                    # equal halves: TDES degenerates to single DES
         self.keys.append(bytes(16))
         self.keys.append(WEAK_KEYS[0] + WEAK_KEYS[1])
+        h2 = rng.randbytes(8)                      # halves related through single bit columns
+        self.keys.append(h2 + bytes(b ^ 0x80 for b in h2))
+        self.keys.append(h2 + bytes(b ^ 0x01 for b in h2))
+        self.keys.append(h2 + bytes(b ^ (0x80 if i % 3 == 0 else 0) for i, b in enumerate(h2)))
         self.msgs = [self.fresh_msg() for _ in range(6)]
+        # parity variants of pooled keys (what a cache keyed on a parity-normalised key confuses)
+        self.variants = []
+        for k in self.keys[:5] + [bytes(16)]:
+            self.variants.append(tools.adjust_key_parity(k))
+            self.variants.append(bytes(b ^ 1 for b in k))
+            self.variants.append(bytes(b & 0xFE for b in k))
+            self.variants.append(bytes(b ^ 0x80 for b in k))          # differs in the top bits only
+            self.variants.append(bytes(b & 0x7F for b in k))
+        self.poison()
+
+    def poison(self):
+        """leave whatever residue a state-carrying helper could keep under the pooled keys: ragged ECB and
+        CBC calls (partial trailing block), a non-zero IV, an exception path — before any case is run"""
+        R = self.R
+        for k in list(self.keys):
+            for kk in (k, k[:8], k[8:], k + k[:8]):
+                for fn in (lambda: tools.encrypt_tdes_ecb(kk, R.randbytes(R.choice([1, 3, 5, 7, 9, 13]))),
+                           lambda: tools.encrypt_tdes_cbc(kk, R.randbytes(8), R.randbytes(R.choice([3, 11, 16]))),
+                           lambda: tools.encrypt_tdes_cbc(kk, R.randbytes(5), b"12345678"),
+                           lambda: tools.key_check_digits(kk, 3),
+                           lambda: mac.mac_iso9797_3(kk[:8], kk[-8:], R.randbytes(5), 7)):
+                    try:
+                        fn()
+                    except Exception:  # noqa: BLE001
+                        pass
 
     def fresh_key(self, n=16):
         return self.R.randbytes(n)
 
+    def kcv_colliding_pair(self, nbytes=3, tries=40000):
+        """two different 16-byte keys (not parity variants) with the same key check value — what a cache
+        indexed by a check value confuses; birthday search on the real TDES"""
+        from cryptography.hazmat.primitives.ciphers import Cipher, algorithms, modes
+        seen = {}
+        for _ in range(tries):
+            k = self.R.randbytes(16)
+            c = Cipher(algorithms.TripleDES(k), modes.ECB()).encryptor().update(bytes(8))[:nbytes]
+            if c in seen and bytes(b & 0xFE for b in seen[c]) != bytes(b & 0xFE for b in k):
+                return seen[c], k
+            seen[c] = k
+        return None
+
     def key(self):
         """a well-sized key, usually from the pool"""
+        if self.R.random() < 0.02:
+            self.poison()
         c = self.R.random()
         if c < 0.55:
             return self.R.choice(self.keys)
         if c < 0.62:                                # halves of a pooled key in swapped roles
             k = self.R.choice(self.keys[:5])
             return k[8:] + k[:8]
+        if c < 0.70:                                # a pooled key up to parity bits
+            return self.R.choice(self.variants)
         k = self.fresh_key()
         if self.R.random() < 0.3:
             self.keys[self.R.randrange(5)] = k
@@ -198,6 +263,20 @@ def op_fromhex(s, **kw):
 
 def op_sha1(m, **kw):
     return Case(f"py.sha1 {hx(m)}", lambda: hashlib.sha1(m).digest(), kw.get("gen", "py.sha1"))
+
+
+def reused_buffer_cases(contents, line_of, call_of, gen):
+    """the same bytearray object, rewritten in place between calls (a memo holding a reference to a
+    caller's buffer returns a stale value); `call_of(buf)` calls the real code with the shared buffer,
+    `line_of(content)` is the protocol line for that content"""
+    buf = bytearray(contents[0])
+    out = []
+    for c in contents:
+        def call(c=c):
+            buf[:] = c
+            return call_of(buf)
+        out.append(Case(line_of(bytes(c)), call, gen))
+    return out
 
 
 class Recorder:
@@ -462,7 +541,18 @@ def gen_tree(R, depth, simple, wellformed=True, boundary=False, big=False):
         if name in t:
             continue
         if cons:
-            t[name] = gen_tree(R, depth - 1, simple, wellformed, boundary, big)
+            sub = gen_tree(R, depth - 1, simple, wellformed, boundary, big)
+            k = R.random()
+            if k < .12:
+                import types
+                sub = types.MappingProxyType(sub)
+            elif k < .2:
+                import collections
+                sub = collections.OrderedDict(sub)
+            elif k < .28:
+                import collections
+                sub = collections.UserDict(sub)
+            t[name] = sub
         else:
             if big and R.random() < .3:
                 ln = R.choice(BIG_LENS)
